@@ -22,6 +22,8 @@ var props = map[string]propFunc{
 	"C05": runC05,
 	"C06": runC06,
 	"C07": runC07,
+	"C08": runC08,
+	"C16": runC16,
 	"C17": runC17,
 }
 
